@@ -93,6 +93,16 @@ CHECKS = {
              "matplotlib/networkx drawing itself is not exercised (backend intercepted). Trusted: Coq kernel, extraction, driver, harness.",
         technique="Coq proof (string-level render/prefix lemmas, insertion sort) + model/implementation correspondence at the drawing backend",
         design="5/C17"),
+    "C15": dict(
+        text="PARTIAL by design (stated in DESIGN 5/C15). Proved (Coq, every graph/rule): passing is invariant under reordering and duplication of subjects, objects, modules and imports, all 12 shapes, "
+             "related modules included (C15_order_independent, lists as sets); the graph queries return the same Ok/error and the same set of imports (C15_query_order_independent); the configuration "
+             "a rule object is left with after an evaluation evaluates like the original on every architecture (C15_reapply); the model's evaluable is an immutable value. "
+             "Checked by execution on /repo (not provable in a model): 40-evaluation interleavings on one shared evaluable vs each evaluation alone, snapshot before/after, re-applied rule objects, "
+             "all permutations of list arguments and layer orders, permuted exclusion tuples, shuffled Path.iterdir, two scans, 8 hash seeds in fresh interpreters (digest of all verdicts+messages).",
+        note="The runtime behaviour the model cannot exhibit: CPython set/dict iteration order, hash randomisation, Path.iterdir order, networkx freeze/mutation. Those are exercised, not proved. "
+             "Trusted: Coq kernel, harness.",
+        technique="Coq proof of order-independence / re-application on the model + execution under varied orders, histories and hash seeds",
+        design="5/C15"),
     "C08": dict(
         text="Theorems (Coq, all patterns and all newline-free path strings, no bound): the glob->regex converter always emits a regex of the "
              "modelled fragment that parses back to (leading star, literal text, trailing star), and convert+re.match equals the documented "
